@@ -112,6 +112,12 @@ def gen_scenario(rng, index):
                 src = rng.randrange(n_valid)
                 ops.append({"op": "pcall", "f": gen.gen_fields(rng, progs[src], ascii_only=True)})
         th.append(ops)
+    if family == "cold" and rng.random() < 0.2:
+        # one thread first fills the process with a few hundred small experiments (bounded caches, sweeper threads the package may
+        # start lazily - and which the scheduler then owns - come to life inside the simulation)
+        th[0].insert(0, {"op": "preload", "n": rng.choice([140, 270, 300])})
+        if len(th) > 1 and th[1] and th[1][0]["op"] == "new":
+            th[1].append(dict(th[1][0]))          # the same text again at the end of another thread
     pk = rng.choice(["bernoulli", "bernoulli", "targeted", "targeted", "targeted", "pct", "park", "park"])
     if family == "race" and rng.random() < 0.6:
         pk = rng.choice(["targeted", "park", "park"])
@@ -290,6 +296,18 @@ class Runner:
                             raise
                         except Exception as e:  # noqa: BLE001
                             rec["out"] = ("raise", type(e).__name__)
+                    elif kind == "preload":
+                        # a long-lived process in fast motion: many small distinct texts are constructed by THIS simulated thread
+                        ok = 0
+                        for j in range(op["n"]):
+                            try:
+                                self.EE('def warm_%d { splitters: uid return "w%d.a" weighted %d, "w%d.b" weighted 1 }' % (j % 7, j, 1 + j % 5, j))
+                                ok += 1
+                            except threads.Abort:
+                                raise
+                            except Exception:  # noqa: BLE001
+                                pass
+                        rec["out"] = ("ok", "int", str(ok))
                     elif kind == "pcall":
                         if private[ti] is not None:
                             rec["t"], rec["f"] = private[ti][0], op["f"]
@@ -306,7 +324,7 @@ class Runner:
         # generous upper bound on the yield points this workload needs (about 6 line events per source character and compile):
         # exceeding four times that is a hang, not a long run
         need = sum(len(texts[op["t"]]["text"]) * 8 + 4000 for ops in sc["threads"] for op in ops if op["op"] in ("new", "recompile")) \
-            + 3000 * sum(len(ops) for ops in sc["threads"])
+            + 3000 * sum(len(ops) for ops in sc["threads"]) + sum(4000 * op.get("n", 0) for ops in sc["threads"] for op in ops if op["op"] == "preload")
         if sc.get("deep_sly"):
             need *= 12
         chooser = self.make_chooser(sc, seed, decisions, est, judged)
@@ -316,7 +334,7 @@ class Runner:
         info = {"steps": sched.step, "switches": sched.switches, "hot_points": sched.hot_points,
                 "digest": "%016x" % (sched.digest & 0xFFFFFFFFFFFFFFFF), "switch_digest": "%016x" % (sched.switch_digest & 0xFFFFFFFFFFFFFFFF),
                 "lock_acquire": sched.stats.get("lock_acquire", 0), "lock_blocked": sched.stats.get("lock_blocked", 0),
-                "lock_timeout": sched.stats.get("lock_timeout", 0), "sleep": sched.stats.get("sleep", 0), "parked": sched.stats.get("parked", 0), "foreign_points": sched.foreign_points}
+                "lock_timeout": sched.stats.get("lock_timeout", 0), "sleep": sched.stats.get("sleep", 0), "parked": sched.stats.get("parked", 0), "foreign_points": sched.foreign_points, "adopted": sched.adopted_count}
         res = {"result": "ok", "info": info, "decisions": [list(d) for d in sched.decisions], "hist": hist}
         if cold and sched.deadlock is None:
             try:
@@ -381,6 +399,11 @@ class Runner:
         wcache = {}
         for r in hist:
             k = r["op"]
+            if k == "preload":
+                if r["out"][2] != str([op for ops in sc["threads"] for op in ops if op["op"] == "preload"][0]["n"]):
+                    raise Violation("new-raised-on-valid-text", {"thread": r["th"], "op_index": r["oi"], "what": "preload of small valid texts",
+                                                                 "constructed": r["out"][2], "why": "sequentially every one of them is accepted"})
+                continue
             if k in ("new", "recompile"):
                 acc = judged[r["t"]]["accepts"]
                 if acc and r["out"][0] == "raise":
@@ -648,7 +671,7 @@ def worker(argv):
     if os.environ.get("VERIF_WARM") == "1":
         warmup(runner)         # default is cold: every forked run starts from a process that has imported the package but never used it
     agg = {"runs": 0, "skipped": 0, "steps": 0, "switches": 0, "hot_points": 0, "overlaps": 0, "epilogue_recompiles": 0,
-           "lock_acquire": 0, "lock_blocked": 0, "lock_timeout": 0, "sleep": 0, "parked": 0, "foreign_points": 0, "violations": 0, "ops": 0}
+           "lock_acquire": 0, "lock_blocked": 0, "lock_timeout": 0, "sleep": 0, "parked": 0, "foreign_points": 0, "adopted": 0, "violations": 0, "ops": 0}
     per_policy = {}
     per_threads = {}
     interleavings = set()
@@ -669,7 +692,7 @@ def worker(argv):
                 continue
             agg["runs"] += 1
             info = res["info"]
-            for k in ("steps", "switches", "hot_points", "lock_acquire", "lock_blocked", "lock_timeout", "sleep", "parked", "foreign_points"):
+            for k in ("steps", "switches", "hot_points", "lock_acquire", "lock_blocked", "lock_timeout", "sleep", "parked", "foreign_points", "adopted"):
                 agg[k] += info[k]
             agg["overlaps"] += info.get("overlaps", 0)
             agg["epilogue_recompiles"] += info.get("epilogue", 0)
@@ -791,6 +814,7 @@ def master(tier, seed):
         "sim_sleep_yields": agg.get("sleep", 0),
         "delay_injections_fired": agg.get("parked", 0),
         "yield_points_in_non_package_python_code": agg.get("foreign_points", 0),
+        "threads_started_by_the_package_and_adopted": agg.get("adopted", 0),
         "skipped_scenarios": agg.get("skipped", 0),
         "runs_per_policy": per_policy,
         "runs_per_thread_count": per_threads,
